@@ -2,6 +2,7 @@ package main
 
 import (
 	"fmt"
+	"os"
 	"go/ast"
 	"go/constant"
 	"go/token"
@@ -579,6 +580,8 @@ func (fr *Frame) load(st *State, p Value) Value {
 	return nil
 }
 
+var traceOn = os.Getenv("GCV_TRACE") != ""
+
 type pathDead struct{}
 
 func unsupPath() { panic(pathDead{}) }
@@ -1016,12 +1019,18 @@ func (fr *Frame) run(b, pred *ssa.BasicBlock, st *State, stop *ssa.BasicBlock) (
 			case *ssa.If, *ssa.Jump, *ssa.Return, *ssa.Panic:
 				term = ins
 			default:
+				if traceOn && (fr.top || os.Getenv("GCV_TRACE") == "2") {
+					fmt.Fprintf(os.Stderr, "trace: %s: %v\n", fr.fn.Name(), ins)
+				}
 				fr.step(st, ins)
 			}
 			if term != nil {
 				break
 			}
 			if st.pc.IsFalse() {
+				if traceOn {
+					fmt.Fprintf(os.Stderr, "trace: %s: path condition false after %v\n", fr.fn.Name(), ins)
+				}
 				return nil
 			}
 		}
